@@ -214,7 +214,7 @@ static void tfd_fire_due(void)
 	}
 }
 
-static void advance_time(uint64_t to)
+static void advance_time(uint64_t to, int forced)
 {
 	if (to > g_vt) g_vt = to;
 	if (g_trace) fprintf(stderr, "[vx]   time -> %llu ns\n", (unsigned long long)g_vt);
@@ -226,7 +226,7 @@ static void advance_time(uint64_t to)
 	}
 	tfd_fire_due();
 	g_step++; hash_mix(0xfeed0000ull + (g_vt & 0xffffffffffffull));
-	if (g_vt > g_horizon) {
+	if (forced && g_vt > g_horizon) {
 		vx_finish(V_STUCK, "virtual time passed the horizon (%llu ms) before the harness finished;",
 				(unsigned long long)(g_horizon / 1000000));
 	}
@@ -325,16 +325,19 @@ static void vx_schedule(vx_thr *self)
 				vx_finish(V_STUCK, "no thread enabled and no deadline pending (vt=%llu ns);",
 						(unsigned long long)g_vt);
 			}
-			advance_time(d);
+			advance_time(d, 1);
 			continue;
 		}
 		uint64_t dl[3]; int nd = 0;
-		if (g_focus && g_timedev) nd = collect_deadlines(dl, 2);
+		if (g_focus && g_timedev) {
+			nd = collect_deadlines(dl, 2);
+			while (nd > 0 && dl[nd - 1] > g_horizon) nd--;   // never jump past the horizon by choice
+		}
 		int total = n + nd, choice = 0;
 		if (g_focus && total > 1) choice = next_choice(total, n, self_en);
 		if (choice >= n) {
 			if (g_trace) fprintf(stderr, "[vx]   choice %d/%d: deadline elapses first\n", choice, total);
-			advance_time(dl[choice - n]);
+			advance_time(dl[choice - n], 0);
 			continue;
 		}
 		if (g_trace && total > 1) fprintf(stderr, "[vx]   choice %d/%d -> T%d\n", choice, total, en[choice]);
